@@ -414,8 +414,20 @@ func GenScenario(rng *rand.Rand, family string) *Scenario {
 		}
 		s.Steps = append(s.Steps, st)
 	}
-	if s.Style == "bluegreen" || (s.Style == "partition" && s.HasTraffic()) {
-		// blue-green requires replicas and traffic discipline accepted by validation; see validateRolloutSpecCanarySteps
+	// keep the plan inside what the validating webhook accepts
+	realPartition := !(s.Style == "bluegreen" || (s.Kind == "deployment" && s.Style == "canary"))
+	for i := range s.Steps {
+		st := &s.Steps[i]
+		if s.Style != "bluegreen" && st.Traffic == 0 {
+			st.Traffic = 5
+		}
+		if realPartition && strings.HasSuffix(st.Replicas, "%") && (st.Traffic >= 0 || st.Match != "") {
+			var p int
+			fmt.Sscanf(st.Replicas, "%d%%", &p)
+			if p > 50 {
+				st.Traffic, st.Match = -1, ""
+			}
+		}
 	}
 	return s
 }
